@@ -54,9 +54,11 @@ CLAIMED = {
               'bytes (inside loops).'),
     'C07': _c('static: dominance rule on impl Read::read + I/O count classification',
               'ZERO-READ (empty-buffer guard dominates an inner read whose zero count mutates the reader) and IO-COUNT W2 '
-              '(transforming writers never report a partial count).',
-              'BCJWriter tail handling across write calls (known defect by reading, no rule built), LZ window buffering '
-              'independent of call sizes.'),
+              '(transforming writers never report a partial count); PENDING-PAIR (every absolute move of the LZ encoder read limit '
+              're-processes the pending bytes on all paths) and LOOKAHEAD-TWIN (one look-ahead reserve: limit formula, its guard, '
+              'the window-move trigger and the buffer-size formula agree).',
+              'BCJWriter tail handling across write calls (known defect by reading, no rule built), numeric relations of the LZ '
+              'window beyond the two structural rules.'),
     'C08': _c('static: ordering/guard rules on the four MT pipelines + control-byte value sets',
               'SEQ-ORDER (hand-out only on seq == next, reorder map keyed by seq, one increment per hand-out/dispatch), CTRL-SETS '
               '(MT cutter cuts exactly at the ST reader\'s dictionary-reset values, same classes and header lengths), '
@@ -77,7 +79,7 @@ CLAIMED = {
     'C13': _c('static: call-graph effect analysis + data-flow from scheduling sources',
               'DET-EFFECT (no nondeterminism source / uninitialised memory reachable from the writers), SCHED-FLOW (no value '
               'derived from worker timing, queue lengths or progress counters reaches a cut decision or an emitted byte; helper '
-              'predicates inlined), FRESH-CODEC, SEQ-ORDER.',
+              'predicates inlined), FRESH-CODEC, SEQ-ORDER, PENDING-PAIR, LOOKAHEAD-TWIN.',
               'independence from the write partition inside the LZ window (numeric relation between positions).'),
     'C14': _c('static: symbolic sign analysis of the normalisation kernels',
               'NORM-NONNEG: scalar, AVX2 and SSE4.1 position-normalisation kernels all store max(p,o)-o (>= 0, 0 when p <= o).',
